@@ -432,6 +432,10 @@ func TestGenerated(t *testing.T) {
 				rawMask = rapid.Uint64().Draw(t, "rawMask")
 				ev.Label("req:with_RawPath_spelling")
 			}
+			if rapid.IntRange(0, 7).Draw(t, "replaceNoRoute") == 0 {
+				tb.ReplaceNoRoute() // HandleNoRoute again, between requests: the new handler is the no-route handler now
+				ev.Label("gen:no_route_handler_replaced_between_requests")
+			}
 			if strings.HasPrefix(p, "/") && rawMask == 0 && rapid.IntRange(0, 4).Draw(t, "forwards") == 0 {
 				// the handler of this request forwards another request through the same Mux before it reads its own Store
 				m2 := rapid.SampledFrom(reqMethods).Draw(t, "fwdmethod")
